@@ -16,6 +16,7 @@ import (
 // C20 — groundwater level follows the supplied series (interpolation / nearest value) or the min/max sinusoid.
 
 type c20Spec struct {
+	Days int    `json:"days,omitempty"` // series: length of the run (default 20 days)
 	Kind string `json:"kind"` // func | series | sinus
 	// func: all subsets with this first timestamp bit set pattern range
 	MaskFrom int `json:"mask_from,omitempty"`
@@ -78,6 +79,20 @@ func init() {
 						}
 					}
 				}
+			}
+			// readings years apart: every subset of 7 dates over four years (whole calendar years without a reading, gaps of
+			// more than a year, a run that goes on for years behind the last reading)
+			cand := []int{-5, 40, 300, 420, 800, 1100, 1460}
+			for m := 1; m < 1<<len(cand); m++ {
+				var offs []int
+				var v []float64
+				for i, o := range cand {
+					if m&(1<<i) != 0 {
+						offs = append(offs, o)
+						v = append(v, c20Vals(m%4, (i+m)%10))
+					}
+				}
+				out = append(out, c20Spec{Kind: "series", Format: []string{"DateDElong", "DateENlong", "DateDEshort", "DateENshort"}[m%4], Offs: offs, Vals: v, Days: 1520, Shape: []int{0, 0, 1, 4}[m%4] * min(1, len(offs)-1)})
 			}
 			lo := 1
 			if tier == "thorough" {
@@ -173,6 +188,9 @@ func c20Run(raw json.RawMessage, c *mc.Ctx) {
 		root := scratchRoot()
 		defer os.RemoveAll(root)
 		ndays := 20
+		if sp.Days > 0 {
+			ndays = sp.Days
+		}
 		if sp.Kind == "sinus" {
 			ndays = 412 // 20.11.2003 - 4.1.2005: a whole leap year including its 366th day, and the year changes on both sides
 		}
